@@ -132,8 +132,8 @@ class Scope(object):
   @property
   def referenced(self):
     if self.parent is not None:
-      return self.read | self.parent.referenced
-    return self.read
+      return self.read | self.bound | self.parent.referenced
+    return self.read | self.bound
 
   @property
   def free_vars(self):
